@@ -13,10 +13,13 @@ import (
 //
 //	maxLimit       the literal of `const maxLimit = N` in ValidateLimit
 //	metaChars      the members of the character class handed to regexp.MustCompile in ValidateQuery
-//	keptControls   the control characters exempted in the strings.Map callback (`r != '\n' && r != '\t'`)
+//	keptControls   the control characters exempted in the sanitising loop (`r != '\n' && r != '\t'`)
+//	invalidRepl    the byte written for a byte that is not valid UTF-8 (`b.WriteByte('?')`)
 //
-// and two site assertions that tie the generated constants to their use: the length test compares
-// len(query) with constants.MaxQueryLength, and limit 0 yields constants.DefaultSearchLimit.
+// two site assertions that tie the generated constants to their use (the length test compares len(query) with
+// constants.MaxQueryLength, and limit 0 yields constants.DefaultSearchLimit), and the shape of the
+// sanitising loop statement by statement (see below): decode at i, invalid byte -> one replacement byte,
+// control character -> nothing, anything else -> the ORIGINAL bytes query[i:i+size], advance by size.
 func init() {
 	register("validate", func(x *X) {
 		const pkg = "internal/validation"
@@ -145,92 +148,46 @@ func init() {
 		}
 		okClass := x.Assert("validate:metaclass", classOK, "expected exactly one regexp.MustCompile(`[<plain ASCII members>]`) in ValidateQuery, got %q", pats)
 
-		// ---- strings.Map callback: unicode.IsControl(r) && r != c1 && r != c2 ... => -1 ; else r --------
+		// ---- the sanitising loop ------------------------------------------------------------------------
+		//	var b strings.Builder
+		//	b.Grow(len(query))                                   (optional)
+		//	for i := 0; i < len(query); {
+		//		r, size := utf8.DecodeRuneInString(query[i:])
+		//		switch {
+		//		case r == utf8.RuneError && size == 1:  b.WriteByte('<ascii>')            validate:strip-invalid
+		//		case unicode.IsControl(r) && r != '<c>' ...:   (nothing)                   validate:control-strip
+		//		default:                                b.WriteString(query[i : i+size])   validate:strip-copy
+		//		}
+		//		i += size
+		//	}
+		//	cleaned := b.String()                                                       validate:strip-result
+		// Every site is a separate assertion; nothing else may touch the builder, and ValidateQuery must not
+		// call strings.Map / strings.ToValidUTF8 (which write U+FFFD, three bytes, for an invalid byte).
 		var kept []int
-		mapOK := false
-		nMap := 0
-		ast.Inspect(vq.Body, func(n ast.Node) bool {
-			ce, ok := n.(*ast.CallExpr)
-			if !ok {
-				return true
+		repl := -1
+		sl := c14FindStripLoop(vq, qname)
+		okLoop := x.Assert("validate:strip-loop", sl.err == "", "sanitising loop of ValidateQuery: %s", sl.err)
+		okMap, okInv, okCopy, okRes := false, false, false, false
+		if okLoop {
+			repl, okInv = c14InvalidCase(sl)
+			x.Assert("validate:strip-invalid", okInv,
+				"expected first case `%s == utf8.RuneError && %s == 1:` with body exactly `%s.WriteByte('<printable ASCII>')` in the sanitising loop of ValidateQuery", sl.r, sl.size, sl.b)
+			kept, okMap = c14ControlCase(sl)
+			x.Assert("validate:control-strip", okMap,
+				"expected second case `unicode.IsControl(%s) && %s != '<c>'...:` with an empty body in the sanitising loop of ValidateQuery", sl.r, sl.r)
+			okCopy = c14CopyCase(sl, qname)
+			x.Assert("validate:strip-copy", okCopy,
+				"expected `default:` with body exactly `%s.WriteString(%s[%s : %s+%s])` (the rune's own bytes, not string(%s) / WriteRune(%s)) in the sanitising loop of ValidateQuery",
+				sl.b, qname, sl.i, sl.i, sl.size, sl.r, sl.r)
+			msg := c14BuilderUse(vq, sl)
+			okRes = msg == ""
+			x.Assert("validate:strip-result", okRes, "builder of the sanitising loop of ValidateQuery: %s", msg)
+		} else {
+			for _, site := range []string{"validate:strip-invalid", "validate:control-strip", "validate:strip-copy", "validate:strip-result"} {
+				x.Assert(site, false, "sanitising loop of ValidateQuery not recognised (%s)", sl.err)
 			}
-			se, ok := ce.Fun.(*ast.SelectorExpr)
-			if !ok || !c14IsIdent(se.X, "strings") || se.Sel.Name != "Map" || len(ce.Args) != 2 {
-				return true
-			}
-			nMap++
-			fl, ok := ce.Args[0].(*ast.FuncLit)
-			if !ok || !c14IsIdent(ce.Args[1], qname) || len(fl.Type.Params.List) != 1 || len(fl.Type.Params.List[0].Names) != 1 {
-				return true
-			}
-			rn := fl.Type.Params.List[0].Names[0].Name
-			if len(fl.Body.List) != 2 {
-				return true
-			}
-			is, ok1 := fl.Body.List[0].(*ast.IfStmt)
-			ret, ok2 := fl.Body.List[1].(*ast.ReturnStmt)
-			if !ok1 || !ok2 || is.Else != nil || is.Init != nil || len(ret.Results) != 1 || !c14IsIdent(ret.Results[0], rn) {
-				return true
-			}
-			// body of the if: return -1
-			if len(is.Body.List) != 1 {
-				return true
-			}
-			r1, ok := is.Body.List[0].(*ast.ReturnStmt)
-			if !ok || len(r1.Results) != 1 {
-				return true
-			}
-			if ue, ok := r1.Results[0].(*ast.UnaryExpr); !ok || ue.Op != token.SUB || !c14IsIntLit(ue.X, "1") {
-				return true
-			}
-			// condition: flatten the && chain
-			var conj []ast.Expr
-			var flat func(e ast.Expr)
-			flat = func(e ast.Expr) {
-				if pe, ok := e.(*ast.ParenExpr); ok {
-					flat(pe.X)
-					return
-				}
-				if be, ok := e.(*ast.BinaryExpr); ok && be.Op == token.LAND {
-					flat(be.X)
-					flat(be.Y)
-					return
-				}
-				conj = append(conj, e)
-			}
-			flat(is.Cond)
-			good := len(conj) >= 1
-			seenCtl := 0
-			var ks []int
-			for _, c := range conj {
-				if call, ok := c.(*ast.CallExpr); ok {
-					if s2, ok := call.Fun.(*ast.SelectorExpr); ok && c14IsIdent(s2.X, "unicode") && s2.Sel.Name == "IsControl" &&
-						len(call.Args) == 1 && c14IsIdent(call.Args[0], rn) {
-						seenCtl++
-						continue
-					}
-				}
-				if be, ok := c.(*ast.BinaryExpr); ok && be.Op == token.NEQ && c14IsIdent(be.X, rn) {
-					if lit, ok := be.Y.(*ast.BasicLit); ok && lit.Kind == token.CHAR {
-						if s, err := strconv.Unquote(lit.Value); err == nil {
-							rs := []rune(s)
-							if len(rs) == 1 {
-								ks = append(ks, int(rs[0]))
-								continue
-							}
-						}
-					}
-				}
-				good = false
-			}
-			if good && seenCtl == 1 {
-				mapOK = true
-				kept = ks
-			}
-			return true
-		})
-		okMap := x.Assert("validate:control-strip", mapOK && nMap == 1,
-			"expected exactly one strings.Map(func(r rune) rune { if unicode.IsControl(r) && r != '<c>'... { return -1 }; return r }, %s) in ValidateQuery (found %d strings.Map calls)", qname, nMap)
+		}
+		okMap = okLoop && okMap && okInv && okCopy && okRes
 
 		if !(okMax && okClass && okMap) {
 			return
@@ -239,14 +196,357 @@ func init() {
 		sb.WriteString("namespace Wtf.Gen.Validate\n\n")
 		fmt.Fprintf(&sb, "/-- `const maxLimit` of ValidateLimit -/\ndef maxLimit : Int := %s\n\n", maxLimit)
 		fmt.Fprintf(&sb, "/-- members of the character class rejected by ValidateQuery (code points of %s) -/\ndef metaChars : List Nat := %s\n\n", leanStr(pats[0]), c14NatList(metas))
-		fmt.Fprintf(&sb, "/-- control characters that the strings.Map callback of ValidateQuery keeps -/\ndef keptControls : List Nat := %s\n\n", c14NatList(kept))
+		fmt.Fprintf(&sb, "/-- control characters that the sanitising loop of ValidateQuery keeps -/\ndef keptControls : List Nat := %s\n\n", c14NatList(kept))
+		fmt.Fprintf(&sb, "/-- the byte that the sanitising loop of ValidateQuery writes for a byte that is not valid UTF-8 (%s) -/\ndef invalidRepl : Nat := %d\n\n", leanStr(strconv.QuoteRune(rune(repl))), repl)
 		sb.WriteString("end Wtf.Gen.Validate\n")
 		x.WriteLean("Validate", sb.String())
 		x.Fact("validate.maxLimit", maxLimit)
 		x.Fact("validate.metaChars", metas)
 		x.Fact("validate.keptControls", kept)
+		x.Fact("validate.invalidRepl", repl)
 		x.Fact("validate.lengthTest", lenOp)
 	})
+}
+
+// c14StripLoop: the parts of the sanitising loop of ValidateQuery once its frame has been recognised.
+type c14StripLoop struct {
+	err           string
+	b, i, r, size string // builder, index, rune and width variables
+	cleaned       string // variable that receives b.String()
+	declIdx       int    // index in the function body of `var b strings.Builder`
+	forIdx        int    // index in the function body of the for statement
+	grow          bool   // b.Grow(len(query)) present between the two
+	clauses       []*ast.CaseClause
+}
+
+func c14CallOn(e ast.Expr, recv, method string, nargs int) *ast.CallExpr {
+	ce, ok := e.(*ast.CallExpr)
+	if !ok || len(ce.Args) != nargs || ce.Ellipsis != token.NoPos {
+		return nil
+	}
+	se, ok := ce.Fun.(*ast.SelectorExpr)
+	if !ok || !c14IsIdent(se.X, recv) || se.Sel.Name != method {
+		return nil
+	}
+	return ce
+}
+
+// frame: `for i := 0; i < len(q); { r, size := utf8.DecodeRuneInString(q[i:]); switch {3 clauses}; i += size }`, preceded by
+// `var b strings.Builder` (optionally `b.Grow(len(q))`) and followed directly by `cleaned := b.String()`, all at the top
+// level of the function body.
+func c14FindStripLoop(fn *ast.FuncDecl, q string) (sl c14StripLoop) {
+	sl.forIdx = -1
+	nFor := 0
+	ast.Inspect(fn.Body, func(n ast.Node) bool {
+		if _, ok := n.(*ast.ForStmt); ok { // (the `range` loops of the error message do not touch the text)
+			nFor++
+		}
+		return true
+	})
+	for k, st := range fn.Body.List {
+		if _, ok := st.(*ast.ForStmt); ok && sl.forIdx < 0 {
+			sl.forIdx = k
+		}
+	}
+	nBad := 0
+	ast.Inspect(fn.Body, func(n ast.Node) bool {
+		if se, ok := n.(*ast.SelectorExpr); ok && c14IsIdent(se.X, "strings") {
+			switch se.Sel.Name {
+			case "Map", "ToValidUTF8", "Trim", "TrimFunc", "Replace", "ReplaceAll", "NewReplacer":
+				nBad++
+			}
+		}
+		return true
+	})
+	if nBad != 0 {
+		sl.err = fmt.Sprintf("ValidateQuery calls strings.Map / ToValidUTF8 / Trim / Replace… (%d uses); the model knows only TrimSpace, Fields, Join", nBad)
+		return
+	}
+	if sl.forIdx < 0 || nFor != 1 {
+		sl.err = fmt.Sprintf("expected exactly one three-clause `for` loop, at the top level of ValidateQuery (found %d)", nFor)
+		return
+	}
+	fs := fn.Body.List[sl.forIdx].(*ast.ForStmt)
+	// for i := 0; i < len(q); {
+	as, ok := fs.Init.(*ast.AssignStmt)
+	if !ok || as.Tok != token.DEFINE || len(as.Lhs) != 1 || len(as.Rhs) != 1 || !c14IsIntLit(as.Rhs[0], "0") {
+		sl.err = "loop header is not `for i := 0; i < len(" + q + "); {`"
+		return
+	}
+	id, ok := as.Lhs[0].(*ast.Ident)
+	if !ok {
+		sl.err = "loop variable is not an identifier"
+		return
+	}
+	sl.i = id.Name
+	be, ok := fs.Cond.(*ast.BinaryExpr)
+	if !ok || be.Op != token.LSS || !c14IsIdent(be.X, sl.i) || !c14IsLenOf(be.Y, q) || fs.Post != nil {
+		sl.err = "loop header is not `for " + sl.i + " := 0; " + sl.i + " < len(" + q + "); {` (no post statement)"
+		return
+	}
+	if len(fs.Body.List) != 3 {
+		sl.err = fmt.Sprintf("loop body has %d statements, expected 3 (decode; switch; advance)", len(fs.Body.List))
+		return
+	}
+	// r, size := utf8.DecodeRuneInString(q[i:])
+	d, ok := fs.Body.List[0].(*ast.AssignStmt)
+	if !ok || d.Tok != token.DEFINE || len(d.Lhs) != 2 || len(d.Rhs) != 1 {
+		sl.err = "first statement of the loop is not `r, size := utf8.DecodeRuneInString(" + q + "[" + sl.i + ":])`"
+		return
+	}
+	rid, ok1 := d.Lhs[0].(*ast.Ident)
+	sid, ok2 := d.Lhs[1].(*ast.Ident)
+	ce := c14CallOn(d.Rhs[0], "utf8", "DecodeRuneInString", 1)
+	if !ok1 || !ok2 || ce == nil || rid.Name == "_" || sid.Name == "_" || rid.Name == sid.Name {
+		sl.err = "first statement of the loop is not `r, size := utf8.DecodeRuneInString(" + q + "[" + sl.i + ":])`"
+		return
+	}
+	sl.r, sl.size = rid.Name, sid.Name
+	se, ok := ce.Args[0].(*ast.SliceExpr)
+	if !ok || !c14IsIdent(se.X, q) || !c14IsIdent(se.Low, sl.i) || se.High != nil || se.Max != nil || se.Slice3 {
+		sl.err = "the loop does not decode at the current position: expected utf8.DecodeRuneInString(" + q + "[" + sl.i + ":])"
+		return
+	}
+	// switch { … }
+	sw, ok := fs.Body.List[1].(*ast.SwitchStmt)
+	if !ok || sw.Init != nil || sw.Tag != nil || len(sw.Body.List) != 3 {
+		sl.err = "second statement of the loop is not a tagless `switch` with exactly three clauses"
+		return
+	}
+	for _, c := range sw.Body.List {
+		sl.clauses = append(sl.clauses, c.(*ast.CaseClause))
+	}
+	// i += size
+	adv, ok := fs.Body.List[2].(*ast.AssignStmt)
+	if !ok || adv.Tok != token.ADD_ASSIGN || len(adv.Lhs) != 1 || len(adv.Rhs) != 1 || !c14IsIdent(adv.Lhs[0], sl.i) || !c14IsIdent(adv.Rhs[0], sl.size) {
+		sl.err = "last statement of the loop is not `" + sl.i + " += " + sl.size + "` (advance by the width of the decoded rune)"
+		return
+	}
+	// cleaned := b.String() directly after the loop
+	if sl.forIdx+1 >= len(fn.Body.List) {
+		sl.err = "nothing follows the loop"
+		return
+	}
+	res, ok := fn.Body.List[sl.forIdx+1].(*ast.AssignStmt)
+	if !ok || res.Tok != token.DEFINE || len(res.Lhs) != 1 || len(res.Rhs) != 1 {
+		sl.err = "the statement after the loop is not `cleaned := <builder>.String()`"
+		return
+	}
+	cid, ok := res.Lhs[0].(*ast.Ident)
+	rc, ok2 := res.Rhs[0].(*ast.CallExpr)
+	if !ok || !ok2 || len(rc.Args) != 0 {
+		sl.err = "the statement after the loop is not `cleaned := <builder>.String()`"
+		return
+	}
+	rse, ok := rc.Fun.(*ast.SelectorExpr)
+	bid, ok2 := func() (*ast.Ident, bool) {
+		if !ok {
+			return nil, false
+		}
+		b, ok := rse.X.(*ast.Ident)
+		return b, ok
+	}()
+	if !ok || !ok2 || rse.Sel.Name != "String" {
+		sl.err = "the statement after the loop is not `cleaned := <builder>.String()`"
+		return
+	}
+	sl.cleaned, sl.b = cid.Name, bid.Name
+	// var b strings.Builder [; b.Grow(len(q))] directly before the loop
+	k := sl.forIdx - 1
+	if k >= 0 {
+		if es, ok := fn.Body.List[k].(*ast.ExprStmt); ok {
+			if g := c14CallOn(es.X, sl.b, "Grow", 1); g != nil && c14IsLenOf(g.Args[0], q) {
+				sl.grow = true
+				k--
+			}
+		}
+	}
+	declOK := false
+	if k >= 0 {
+		if ds, ok := fn.Body.List[k].(*ast.DeclStmt); ok {
+			if gd, ok := ds.Decl.(*ast.GenDecl); ok && gd.Tok == token.VAR && len(gd.Specs) == 1 {
+				vs := gd.Specs[0].(*ast.ValueSpec)
+				if len(vs.Names) == 1 && vs.Names[0].Name == sl.b && len(vs.Values) == 0 && c14IsSel(vs.Type, "strings", "Builder") {
+					declOK = true
+					sl.declIdx = k
+				}
+			}
+		}
+	}
+	if !declOK {
+		sl.err = "expected `var " + sl.b + " strings.Builder` (optionally followed by `" + sl.b + ".Grow(len(" + q + "))`) directly before the loop"
+		return
+	}
+	names := map[string]bool{sl.b: true, sl.i: true, sl.r: true, sl.size: true, q: true, sl.cleaned: true}
+	if len(names) != 6 {
+		sl.err = "the variables of the loop are not six different names"
+	}
+	return
+}
+
+// flatten an && chain
+func c14Conj(e ast.Expr) []ast.Expr {
+	if pe, ok := e.(*ast.ParenExpr); ok {
+		return c14Conj(pe.X)
+	}
+	if be, ok := e.(*ast.BinaryExpr); ok && be.Op == token.LAND {
+		return append(c14Conj(be.X), c14Conj(be.Y)...)
+	}
+	return []ast.Expr{e}
+}
+
+// case r == utf8.RuneError && size == 1:  b.WriteByte('?')
+func c14InvalidCase(sl c14StripLoop) (int, bool) {
+	c := sl.clauses[0]
+	if len(c.List) != 1 || len(c.Body) != 1 {
+		return -1, false
+	}
+	conj := c14Conj(c.List[0])
+	if len(conj) != 2 {
+		return -1, false
+	}
+	seenR, seenS := 0, 0
+	for _, e := range conj {
+		be, ok := e.(*ast.BinaryExpr)
+		if !ok || be.Op != token.EQL {
+			return -1, false
+		}
+		switch {
+		case c14IsIdent(be.X, sl.r) && c14IsSel(be.Y, "utf8", "RuneError"):
+			seenR++
+		case c14IsIdent(be.X, sl.size) && c14IsIntLit(be.Y, "1"):
+			seenS++
+		default:
+			return -1, false
+		}
+	}
+	if seenR != 1 || seenS != 1 {
+		return -1, false
+	}
+	es, ok := c.Body[0].(*ast.ExprStmt)
+	if !ok {
+		return -1, false
+	}
+	ce := c14CallOn(es.X, sl.b, "WriteByte", 1)
+	if ce == nil {
+		return -1, false
+	}
+	lit, ok := ce.Args[0].(*ast.BasicLit)
+	if !ok || lit.Kind != token.CHAR {
+		return -1, false
+	}
+	s, err := strconv.Unquote(lit.Value)
+	if err != nil {
+		return -1, false
+	}
+	rs := []rune(s)
+	if len(rs) != 1 || rs[0] < 0x21 || rs[0] > 0x7e { // one printable ASCII byte; what else it must not be is a theorem (gen_facts_ok)
+		return -1, false
+	}
+	return int(rs[0]), true
+}
+
+// case unicode.IsControl(r) && r != '\n' && r != '\t':  (nothing)
+func c14ControlCase(sl c14StripLoop) ([]int, bool) {
+	c := sl.clauses[1]
+	if len(c.List) != 1 || len(c.Body) != 0 {
+		return nil, false
+	}
+	seenCtl := 0
+	var ks []int
+	for _, e := range c14Conj(c.List[0]) {
+		if call := c14CallOn(e, "unicode", "IsControl", 1); call != nil && c14IsIdent(call.Args[0], sl.r) {
+			seenCtl++
+			continue
+		}
+		if be, ok := e.(*ast.BinaryExpr); ok && be.Op == token.NEQ && c14IsIdent(be.X, sl.r) {
+			if lit, ok := be.Y.(*ast.BasicLit); ok && lit.Kind == token.CHAR {
+				if s, err := strconv.Unquote(lit.Value); err == nil {
+					if rs := []rune(s); len(rs) == 1 {
+						ks = append(ks, int(rs[0]))
+						continue
+					}
+				}
+			}
+		}
+		return nil, false
+	}
+	return ks, seenCtl == 1
+}
+
+// default:  b.WriteString(q[i : i+size])
+func c14CopyCase(sl c14StripLoop, q string) bool {
+	c := sl.clauses[2]
+	if c.List != nil || len(c.Body) != 1 {
+		return false
+	}
+	es, ok := c.Body[0].(*ast.ExprStmt)
+	if !ok {
+		return false
+	}
+	ce := c14CallOn(es.X, sl.b, "WriteString", 1)
+	if ce == nil {
+		return false
+	}
+	se, ok := ce.Args[0].(*ast.SliceExpr)
+	if !ok || !c14IsIdent(se.X, q) || !c14IsIdent(se.Low, sl.i) || se.Max != nil || se.Slice3 {
+		return false
+	}
+	hi, ok := se.High.(*ast.BinaryExpr)
+	return ok && hi.Op == token.ADD && c14IsIdent(hi.X, sl.i) && c14IsIdent(hi.Y, sl.size)
+}
+
+// The builder is used only by its declaration, Grow, the two writes of the loop and String(); the query, the index,
+// the rune and the width are not assigned anywhere else; `cleaned` is what the rest of the function works on.
+func c14BuilderUse(fn *ast.FuncDecl, sl c14StripLoop) string {
+	count := func(name string) int {
+		n := 0
+		ast.Inspect(fn.Body, func(nd ast.Node) bool {
+			if id, ok := nd.(*ast.Ident); ok && id.Name == name {
+				n++
+			}
+			return true
+		})
+		return n
+	}
+	wantB := 4 // decl, WriteByte, WriteString, String
+	if sl.grow {
+		wantB++
+	}
+	if n := count(sl.b); n != wantB {
+		return fmt.Sprintf("`%s` occurs %d times in ValidateQuery, expected %d (declaration, Grow, WriteByte, WriteString, String)", sl.b, n, wantB)
+	}
+	if n := count(sl.i); n != 6 { // init, cond, q[i:], q[i : i+size] twice, i += size
+		return fmt.Sprintf("`%s` occurs %d times, expected 6", sl.i, n)
+	}
+	if n := count(sl.size); n != 4 { // define, size == 1, i+size, i += size
+		return fmt.Sprintf("`%s` occurs %d times, expected 4", sl.size, n)
+	}
+	// assignments to the query parameter or a second definition of cleaned would detach the model's data flow
+	bad := ""
+	qn := ""
+	if ps := fn.Type.Params.List; len(ps) == 1 && len(ps[0].Names) == 1 {
+		qn = ps[0].Names[0].Name
+	}
+	ast.Inspect(fn.Body, func(nd ast.Node) bool {
+		switch s := nd.(type) {
+		case *ast.AssignStmt:
+			for _, l := range s.Lhs {
+				if c14IsIdent(l, qn) {
+					bad = "the query parameter is assigned to"
+				}
+				if c14IsIdent(l, sl.cleaned) && s.Tok == token.DEFINE && s.Pos() != fn.Body.List[sl.forIdx+1].Pos() {
+					bad = "`" + sl.cleaned + "` is defined a second time"
+				}
+			}
+		case *ast.IncDecStmt:
+			if c14IsIdent(s.X, sl.i) {
+				bad = "the index is incremented outside `" + sl.i + " += " + sl.size + "`"
+			}
+		}
+		return true
+	})
+	return bad
 }
 
 func c14NatList(xs []int) string {
